@@ -49,6 +49,36 @@ pub fn gen_lzfill(rng: &mut Rng) -> Hist {
     Hist { cfg, api, plain, class, steps, tail_out: out, family: "lzfill_small_output" }
 }
 
+/// Incompressible inputs whose length sits exactly on / next to the compressor's automatic
+/// block-flush thresholds (31 KiB + 1 per stored / "fat" block, the LZ code-buffer limit for
+/// literal-only data), handed over in one call that also carries a flush request, with an
+/// output buffer too small for the block: the automatic block and the requested flush then
+/// meet in the same call while output is still pending.
+pub fn gen_block_threshold(rng: &mut Rng, k: u64) -> Hist {
+    let cfg = Config { level: (k % 11) as u8, strategy: *rng.pick(&STRATEGIES), zlib: rng.bool(), wbits: 15 };
+    let base = *rng.pick(&[31_745usize, 31_745, 31_745 * 2, 31_745 * 3, 31_744, 32_768, 58_247, 58_254, 65_528, 65_536]);
+    let n = (base as i64 + rng.range(0, 4) as i64 - 2).max(1) as usize;
+    let class = *rng.pick(&[6usize, 6, 14, 8]);
+    let plain = data::gen(rng, class, n);
+    let api = if rng.chance(1, 4) { Api::Deflate } else { Api::Compress };
+    let flushes = if api == Api::Deflate { vec![TDEFLFlush::Sync, TDEFLFlush::Full, TDEFLFlush::Partial, TDEFLFlush::Finish] } else { vec![TDEFLFlush::Sync, TDEFLFlush::Full, TDEFLFlush::Partial, TDEFLFlush::Finish, TDEFLFlush::NoSync, TDEFLFlush::SyncOpt, TDEFLFlush::PartialOpt] };
+    let out = *rng.pick(&[1usize, 7, 300, 4096, 40_000]);
+    let mut steps = Vec::new();
+    // optionally deliver the data in two pieces so that the threshold is crossed inside the flush call
+    if rng.bool() {
+        let cut = rng.below(n);
+        steps.push(CStep { chunk: cut, out_len: *rng.pick(&[out, 200_000]), flush: TDEFLFlush::None });
+        steps.push(CStep { chunk: n - cut, out_len: out, flush: *rng.pick(&flushes) });
+    } else {
+        steps.push(CStep { chunk: n, out_len: out, flush: *rng.pick(&flushes) });
+    }
+    // a few more flush requests while output is pending
+    for _ in 0..rng.below(3) {
+        steps.push(CStep { chunk: 0, out_len: out, flush: *rng.pick(&flushes) });
+    }
+    Hist { cfg, api, plain, class, steps, tail_out: out, family: "block_threshold_flush" }
+}
+
 pub fn run_one(prop: &str, rep: &mut Report, h: &Hist) -> Option<(CRun, crate::refimpl::inflate::Outcome)> {
     let mut c = h.cfg.make();
     let run = run_history(&mut c, h.api, &h.plain, &h.steps, h.tail_out);
@@ -114,11 +144,18 @@ pub fn run_one(prop: &str, rep: &mut Report, h: &Hist) -> Option<(CRun, crate::r
 pub fn run(ctx: &Ctx, rep: &mut Report) {
     let n = ctx.n(10_000, 200_000);
     let n_fill = ctx.n(96, 1500);
-    for k in ctx.cases(n + n_fill) {
+    let n_thr = ctx.n(1200, 30_000);
+    for k in ctx.cases(n + n_fill + n_thr) {
         rep.cur_case = k;
         crate::ctx::begin_case(k);
         let mut rng = ctx.rng("case", k);
-        let h = if k < n { gen_history(&mut rng, k, if ctx.thorough() { 300_000 } else { 120_000 }) } else { gen_lzfill(&mut rng) };
+        let h = if k < n {
+            gen_history(&mut rng, k, if ctx.thorough() { 300_000 } else { 120_000 })
+        } else if k < n + n_fill {
+            gen_lzfill(&mut rng)
+        } else {
+            gen_block_threshold(&mut rng, k)
+        };
         let _ = run_one("C02", rep, &h);
     }
     if ctx.only_case.is_none() && ctx.tier != crate::ctx::Tier::Tiny {
